@@ -76,7 +76,8 @@ def q(s):
 
 def struct_keys(r, named):
     return {
-        "as": lambda: 'as = "Vec<i32>"',
+        # (`_` stands for the type of the field an `as` is written on; a container has none)
+        "as": lambda: r.choice(['as = "Vec<i32>"', 'as = "Vec<i32>"', 'as = "_"', 'as = "Option<_>"']),
         "type": lambda: 'type = "string"',
         "rename": lambda: f'rename = {q(r.choice(["Ren", "R2", "with space", "a-b"]))}',
         "rename_all": lambda: f'rename_all = "{r.choice(RULES)}"',
@@ -94,7 +95,7 @@ def struct_keys(r, named):
 
 def enum_keys(r):
     return {
-        "as": lambda: 'as = "Vec<i32>"',
+        "as": lambda: r.choice(['as = "Vec<i32>"', 'as = "Vec<i32>"', 'as = "_"']),
         "type": lambda: 'type = "string"',
         "rename": lambda: f'rename = {q(r.choice(["Ren", "R2"]))}',
         "rename_all": lambda: f'rename_all = "{r.choice(RULES)}"',
